@@ -1,2 +1,3 @@
 pub mod engine;
 pub mod gen;
+pub mod tree;
